@@ -8,7 +8,7 @@
 (* deviation kind.  Expensive checks are evaluated lazily (only when the    *)
 (* library ACCEPTED a faulted input is the full verification evaluated).    *)
 (***************************************************************************)
-EXTENDS SM2Jac, Gen, Json, IOUtils
+EXTENDS SM2Jac, SM2Codec, Gen, Json, IOUtils
 Events == ndJsonDeserialize(IOEnv.TRACE)
 N == Len(Events)
 VARIABLES tpos, tst, tlast
@@ -104,12 +104,61 @@ Kx4Ok(e, x) == IF x[1] = "err" THEN e.outcome = "err" \/ (e.outcome = "ok" /\ e.
 Kx4b(e, x) == Stay /\ tlast' = Verdict(e, Kx4Ok(e, x), "step4." \o e.tamper, IF Crash(e) THEN e.outcome ELSE IF e.accepted = 1 THEN "accepted-wrong-SA" ELSE "rejected-correct-SA")
 Kx4(e) == Kx4b(e, Kx4Exp(e, IF JCanon(e.ra_in) THEN Denote(e.ra_in) ELSE <<"bad">>, Mul(e.r, G)))
 
+\* ---------------- C19: encodings ----------------
+EncAll(e, d, pt) == /\ e.outcome = "ok"
+                    /\ e.pkc = EncodePoint(pt, TRUE) /\ e.pku = EncodePoint(pt, FALSE)
+                    /\ e.hexc = HexEncode(EncodePoint(pt, TRUE)) /\ e.hexu = HexEncode(EncodePoint(pt, FALSE))
+                    /\ e.skb = B32(d) /\ e.skhex = HexEncode(B32(d))
+                    /\ e.spki_der = Spki(pt) /\ e.spki_pem = Pem(LabelPub, Spki(pt))
+                    /\ e.p8_der = Pkcs8(d, pt) /\ e.p8_pem = Pem(LabelPriv, Pkcs8(d, pt))
+CodecEnc1(e) == Stay /\ tlast' = Verdict(e, EncAll(e, BFromBE(e.d), PubOf(e.d)), "encode." \o (IF e.d[1] = 0 THEN "leading-zero-d" ELSE "plain"),
+                                          IF Crash(e) THEN e.outcome ELSE "wrong-encoding")
+\* decoders.  expected: <<"ok", bytes>> | <<"err">> | <<"lenient">> (ok => the result must be a valid key)
+PtBytes(r) == IF r[1] = "ok" THEN <<"ok", EncodePoint(r[2], FALSE)>> ELSE IF r[1] = "either" THEN <<"lenient">> ELSE <<"err">>
+HexThen(h) == IF h[1] = "err" THEN <<"err">> ELSE PtBytes(DecodePoint(h[2]))
+SkBytes(b) == IF Len(b) # 32 THEN <<"err">> ELSE IF ValidPrivate(b) THEN <<"ok", b>> ELSE <<"lenient">>
+SkHex(h) == IF h[1] = "err" THEN <<"err">> ELSE SkBytes(h[2])
+SpkiExp(r) == IF r[1] = "other" THEN <<"lenient">> ELSE PtBytes(r)
+P8Exp(r) == IF r[1] = "other" THEN <<"lenient">> ELSE SkBytes(r[2])
+DecExpected(e) == IF e.kind = "pk_bytes" THEN PtBytes(DecodePoint(e.input))
+                  ELSE IF e.kind = "pk_hex" THEN HexThen(HexDecode(e.input))
+                  ELSE IF e.kind = "sk_bytes" THEN SkBytes(e.input)
+                  ELSE IF e.kind = "sk_hex" THEN SkHex(HexDecode(e.input))
+                  ELSE IF e.kind = "spki_der" THEN SpkiExp(SpkiDecode(e.input))
+                  ELSE IF e.kind = "pkcs8_der" THEN P8Exp(Pkcs8Decode(e.input))
+                  ELSE <<"lenient">>                                   \* PEM: judged through re-encoding when canonical (below)
+IsPub(e) == e.kind \in {"pk_bytes", "pk_hex", "spki_der", "spki_pem"}
+ValidOut(e) == IF IsPub(e) THEN DecodePoint(e.out)[1] = "ok" ELSE ValidPrivate(e.out) \/ Len(e.out) = 32
+\* canonical PEM documents (library-made or OpenSSL-made): decoding must succeed and re-encode to the same text
+PemCanonOK(e) == IF e.kind = "spki_pem" THEN e.outcome = "ok" /\ DecodePoint(e.out)[1] = "ok" /\ Pem(LabelPub, Spki(DecodePoint(e.out)[2])) = e.input
+                 ELSE IF e.kind = "pkcs8_pem" THEN e.outcome = "ok" /\ Len(e.out) = 32 /\ Pem(LabelPriv, Pkcs8(BFromBE(e.out), PubOf(e.out))) = e.input
+                 ELSE TRUE
+DecOk(e, x) == /\ ~Crash(e)
+               /\ (x[1] = "ok" => e.outcome = "ok" /\ e.out = x[2])
+               /\ (x[1] = "err" => e.outcome = "err")
+               /\ (x[1] = "lenient" /\ e.outcome = "ok" => ValidOut(e))
+               /\ (e.canon = 1 => PemCanonOK(e))
+CodecDecKind(e, x) == IF Crash(e) THEN e.outcome ELSE IF x[1] = "err" /\ e.outcome = "ok" THEN "accepted-but-spec-rejects"
+                      ELSE IF x[1] = "ok" /\ e.outcome # "ok" THEN "rejected-but-spec-accepts" ELSE IF e.outcome = "ok" /\ ~ValidOut(e) THEN "decoded-invalid-key" ELSE "wrong-value"
+CodecDec2(e, x) == Stay /\ tlast' = Verdict(e, DecOk(e, x), "decode." \o e.kind \o "." \o e.fault, CodecDecKind(e, x))
+CodecDec1(e) == CodecDec2(e, DecExpected(e))
+\* GM/T 0009 ciphertext
+AsnEnc3(e, r) == Stay /\ tlast' = Verdict(e, e.outcome = "ok" /\ r[1] = "ok" /\ e.der = RawToDer(r[2]), "asn1.enc." \o e.shape,
+                                           IF Crash(e) THEN e.outcome ELSE IF e.outcome # "ok" THEN "encrypt-error" ELSE "wrong-der")
+AsnEnc1(e) == AsnEnc3(e, EncWith(Pk(e), e.ks, 1, MsgOf(e), "c1c3c2", FALSE))
+AsnDec2(e, r) == Stay /\ tlast' = Verdict(e, DecAllowed(e, r), "asn1.dec." \o e.fault, DecKind(e, r))
+AsnDec1(e) == AsnDec2(e, DecryptDer(BFromBE(e.d), e.der))
+
 Step(e) == IF e.op = "sm2.verify" THEN Ver1(e)
            ELSE IF e.op = "sm2.verify_digest" THEN VerD1(e)
            ELSE IF e.op \in {"sm2.sign", "sm2.sign_digest"} THEN Sign1(e)
            ELSE IF e.op = "sm2.encrypt" THEN Enc1(e)
            ELSE IF e.op = "sm2.decrypt" THEN Dec1(e)
            ELSE IF e.op = "sm2.kdf" THEN Kdf1(e)
+           ELSE IF e.op = "codec.encode" THEN CodecEnc1(e)
+           ELSE IF e.op = "codec.decode" THEN CodecDec1(e)
+           ELSE IF e.op = "codec.asn1_enc" THEN AsnEnc1(e)
+           ELSE IF e.op = "codec.asn1_dec" THEN AsnDec1(e)
            ELSE IF e.op = "kx.step1" THEN Kx1(e)
            ELSE IF e.op = "kx.step2" THEN Kx2(e)
            ELSE IF e.op = "kx.step3" THEN Kx3(e)
